@@ -193,6 +193,12 @@ func (e *Exec) scanCallMods(fn *ssa.Function, c *ssa.CallCommon, ms *modSet, see
 		if g := ct.Attrs["result-ghost"]; g != "" {
 			ms.comps["G."+g] = arraySort(SInt, SInt)
 		}
+		if g := ct.Attrs["log-count"]; g != "" {
+			ms.comps["G."+g] = arraySort(SInt, SInt)
+			if ga := ct.Attrs["log-arg"]; ga != "" {
+				ms.comps["G."+ga] = arraySort(SInt, arraySort(SInt, SInt))
+			}
+		}
 		if ct.ModFn != "" {
 			pk := e.w.Pkgs[ct.PkgPath]
 			if mf := pk.SSA.Func(ct.ModFn); mf != nil {
@@ -275,7 +281,7 @@ func (e *Exec) scanCallMods(fn *ssa.Function, c *ssa.CallCommon, ms *modSet, see
 
 func isIntrinsic(nm string) bool {
 	switch nm {
-	case "specAssert", "specAssume", "vcForall", "vcExists", "vcTrigger1", "vcTrigger2", "vcTrigger3", "vcOldBegin", "vcOld", "vcMod1", "vcModElems", "vcModMap", "vcFresh", "vcByteStr", "vcModGhost", "vcSameSlice", "vcElemsOf", "vcOff", "vcSeqAt", "vcIte":
+	case "specAssert", "specAssume", "vcForall", "vcExists", "vcTrigger1", "vcTrigger2", "vcTrigger3", "vcOldBegin", "vcOld", "vcMod1", "vcModElems", "vcModMap", "vcFresh", "vcByteStr", "vcModGhost", "vcSameSlice", "vcElemsOf", "vcOff", "vcSeqAt", "vcIte", "vcMapSeq":
 		return true
 	}
 	return false
